@@ -27,3 +27,14 @@ Inductive grentry :=
 | GR (f : fid) (key codec pos : bytes)                  (* if raw, ok := mm[key]; ok { x.f = codec(raw) } *)
 | GRDeleg (on fn pos : bytes)
 | GRUnrecognised (src pos : bytes).
+
+(* gobDecodeItem tries the shapes a byte string can have in source order (Gen/GobR.gob_sniff): one
+   entry per top-level statement group of its body *)
+Inductive gsniff :=
+| GSTry (fn pos : bytes)
+      (* v := make(..); if err := fn(&v, data); err == nil { return v, .. } *)
+| GSMap (fn tkey : bytes) (always : bool) (pos : bytes)
+      (* mm, err := fn(data); if err == nil { isObject = true [always]; typ from mm[tkey] };
+         if isObject { it, err := ItemTyperFunc(typ); ...; switch it.GetType() {..}; return it, err } *)
+| GSFail (pos : bytes)                                  (* return nil, errors.New(..) *)
+| GSUnrecognised (src pos : bytes).
